@@ -9,7 +9,7 @@ never parsed [B]; parse_attribute_to_meta_list's per-form behaviour (E).
 Not decided: invariance under every partition as a metamorphic statement over inputs."""
 import re
 
-from vlib import mir, scan, tpl, derived
+from vlib import mir, scan, sym, tpl, derived
 from . import common
 
 META = dict(
@@ -77,24 +77,46 @@ def run(ctx):
     if f:
         T = tpl.Templates(f)
         seen = {"none": 0, "all": 0, "only": 0}
-        for s in T.by_stream:
-            if T.by_stream[s][0].kind == "append":
+        # what is emitted under each state of the filter: the templates that stand under that state,
+        # read in program order (one template or several appended one after the other)
+        groups = {"only": [], "all": [], "none": []}
+        emitted = []
+        for tk in T.events:
+            if tk.kind == "append":
+                for x in T.stream_alts(tk.inner):
+                    if x not in emitted:
+                        emitted.append(x)
+        for s in emitted:
+            if not T.by_stream.get(s) or T.by_stream[s][0].kind == "append":
                 continue
-            txt = T.text(s)
-            pcs = ctx.pc_strs(f, T.by_stream[s][0].blk)
-            if txt == "_ => continue":
-                seen["none"] += 1
-                ok = all(ctx._sat(d, r"will_forward_any\(self\.0\)=False") for d in pcs)
-                ctx.ob("C08.G.forward-none", f.key, "`_ => continue` only", ok, "under %s" % [sorted(d) for d in pcs])
-            elif txt.startswith("_ => ") and "push" in txt:
-                seen["all"] += 1
-                ok = all(ctx._sat(d, r"discr\(.*self\.0\.filter.*\)=All$") for d in pcs)
-                ctx.ob("C08.G.forward-all", f.key, "`_ => push`", ok and txt == "_ => __fwd_attrs . push ( __attr . clone ( ) )", "%s under %s" % (txt, [sorted(d) for d in pcs]))
-            elif "RepInterp" in txt:
-                seen["only"] += 1
-                ok = all(ctx._sat(d, r"discr\(.*self\.0\.filter.*\)=Only$") for d in pcs)
-                want = "| ⟨quote::__private::RepInterp<str>⟩ => __fwd_attrs . push ( __attr . clone ( ) ) , _ => continue ,"
-                ctx.ob("C08.G.forward-only-listed", f.key, "`#(#names)|* => push, _ => continue`", ok and txt == want, "%s under %s" % (txt, [sorted(d) for d in pcs]))
+            blk0 = T.by_stream[s][0].blk
+            pcs = ctx.pc_strs(f, blk0)
+            if pcs and all(ctx._sat(d, r"discr\(.*self\.0\.filter.*\)=Only$") for d in pcs):
+                groups["only"].append((blk0, T.text(s), pcs))
+            elif pcs and all(ctx._sat(d, r"discr\(.*self\.0\.filter.*\)=All$") for d in pcs):
+                groups["all"].append((blk0, T.text(s), pcs))
+            else:
+                groups["none"].append((blk0, T.text(s), pcs))
+        for k in groups:
+            groups[k].sort(key=lambda x: x[0])
+        for blk0, txt, pcs in groups["none"]:
+            seen["none"] += 1
+            ok = all(ctx._sat(d, r"will_forward_any\(self\.0\)=False") for d in pcs)
+            if not ok:
+                # a path that never asks but already excludes every way to forward anything
+                s_, _ = ctx.sym(f)
+                for _, t_ in ctx.find_calls(f, r"ForwardAttrs::<'_>::will_forward_any$")[:1]:
+                    ok = ctx.pc_entails_call(f, blk0, mir.callee_of(t_), [sym.strip_transparent(s_.operand(a_)) for a_ in t_["args"]], False)
+            ctx.ob("C08.G.forward-none", f.key, "`_ => continue` only", ok and txt.rstrip(" ,") == "_ => continue", "%s under %s" % (txt, [sorted(d) for d in pcs]))
+        if groups["all"]:
+            seen["all"] += 1
+            txt = " ".join(x[1] for x in groups["all"])
+            ctx.ob("C08.G.forward-all", f.key, "`_ => push`", txt.rstrip(" ,") == "_ => __fwd_attrs . push ( __attr . clone ( ) )", "%s under %s" % (txt, [sorted(d) for d in groups["all"][0][2]]))
+        if groups["only"]:
+            seen["only"] += 1
+            txt = " ".join(x[1] for x in groups["only"])
+            want = "| ⟨quote::__private::RepInterp<str>⟩ => __fwd_attrs . push ( __attr . clone ( ) ) , _ => continue"
+            ctx.ob("C08.G.forward-only-listed", f.key, "`#(#names)|* => push, _ => continue`", txt.rstrip(" ,") == want, "%s under %s" % (txt, [sorted(d) for d in groups["only"][0][2]]))
         ctx.ob("C08.G.forward-arms-complete", f.key, "three arm shapes", seen == {"none": 1, "all": 1, "only": 1}, str(seen))
         # the listed names are the filter's own strings
         nm = ctx.find_calls(f, r"PathList::to_strings$")
@@ -141,7 +163,17 @@ def run(ctx):
         ctx.ob("C08.E.attribute-forms", f.key, "every syn::Meta form handled", ok, "forms: %s" % sorted(outs))
         if ok:
             ctx.ob("C08.E.list-is-cloned", f.key, "List => Ok(list.clone())", all(re.search(r"^core::result::Result::Ok\{.*Clone.*clone\(\(a1\.meta as List\)\.0\)\}$", e) for e in outs["List"]), str(outs["List"])[:200])
-            ctx.ob("C08.E.path-is-empty-list", f.key, "Path => Ok(empty MetaList)", all(e.startswith("core::result::Result::Ok{syn::attr::MetaList::MetaList{") and "Default>::default()" in e for e in outs["Path"]), str(outs["Path"])[:260])
+            def empty_list(e):
+                if e.startswith("core::result::Result::Ok{syn::attr::MetaList::MetaList{") and "Default>::default()" in e:
+                    return True
+                # the list built by a private helper of the module
+                m = re.match(r"^core::result::Result::Ok\{(darling_core::[\w:]+)\(", e)
+                h = ctx.fn(m.group(1), required=False) if m else None
+                if h is None or not str(h.raw.get("vis", "")).startswith("Restricted"):
+                    return False
+                vals = ctx.ret_values(h)
+                return bool(vals) and all(v.startswith("syn::attr::MetaList::MetaList{") and "Default>::default()" in v for v in vals)
+            ctx.ob("C08.E.path-is-empty-list", f.key, "Path => Ok(empty MetaList)", all(empty_list(e) for e in outs["Path"]), str(outs["Path"])[:260])
             ctx.ob("C08.E.name-value-is-error", f.key, "NameValue => Err(spanned)", all(e.startswith("core::result::Result::Err{darling_core::error::Error::with_span(") for e in outs["NameValue"]), str(outs["NameValue"])[:200])
 
     # ------------------------------------------------------------ [B]
